@@ -336,6 +336,12 @@ class EnvSim(Engine):
                 st = new
         script = {"engine": self.name, "knobs": {"max_ancestors": rk.choice(KNOBS)}, "world": world,
                   "pick": pick, "ops": ops}
+        r2e = stream(seed, "second-env")
+        if r2e.random() < 0.3:
+            script["second_env"] = {"pick": r2e.randint(0, 10 ** 6)}
+            for o in ops:
+                if r2e.random() < 0.5:
+                    o["env"] = "B"
         rfa = stream(seed, "faults")
         if world.get("ifuns"):
             steps = [o for o in ops if o["op"] == "apply"]
@@ -566,9 +572,42 @@ class EnvSim(Engine):
         if any(f.get("source") in ("fluent-default", "type-default") and f["type"][0] != "bool" for f in world["fluents"]):
             ctx.probe("non-boolean-default")
         sensed = refused = 0
+        # ---- optionally a SECOND live environment over the same problem, in another hidden world; the agent's steps
+        # then alternate between the two, and each must behave as if it were alone
+        envs, models, rss = {"A": env}, {"A": model}, {"A": rs}
+        sec = script.get("second_env")
+        if sec and len(valid) >= 2:
+            targetB = dict(zip(hid, valid[sec["pick"] % len(valid)]))
+            ee_mod.random = ChoiceShim(targetB)
+            try:
+                with warnings.catch_warnings():
+                    warnings.simplefilter("ignore")
+                    envB = ee_mod.SimulatedExecutionEnvironment(problem)
+                envA_ = env
+                env = envB
+                startB = read()
+                env = envA_
+                hiddenB = {k: startB.get(k) for k in hid}
+                if tuple(sorted(hiddenB.items())) in validset:
+                    rsB = RefSem(self.det_world(world, hiddenB))
+                    mB = rsB.initial_state()
+                    for gf in gfs:
+                        if gf not in hid and gf not in mB and gf in startB:
+                            mB[gf] = startB[gf]
+                    envs["B"], models["B"], rss["B"] = envB, mB, rsB
+                    ctx.probe("second-live-environment")
+            except Exception as ex:
+                ctx.ev("second environment", type(ex).__name__)
+            finally:
+                ee_mod.random = sys.modules["random"]
+        last_e = None
         for i, op in enumerate(script["ops"]):
             ctx.op_index = i + 1
             ctx.ops += 1
+            if last_e is not None:
+                models[last_e] = model
+            last_e = op.get("env", "A") if op.get("env", "A") in envs else "A"
+            env, model, rs = envs[last_e], models[last_e], rss[last_e]
             if op["op"] == "goal":
                 try:
                     got = env.is_goal_reached()
